@@ -93,6 +93,23 @@ class ScopedIter(Generic[T]):
             await aclose
 
 
+async def close_all(iterators: Iterable[Any]) -> None:
+    """Close all ``iterators`` that can be closed, even if closing some of them fails"""
+    iterators = iter(iterators)
+    for iterator in iterators:
+        try:
+            aclose = iterator.aclose
+        except AttributeError:
+            continue
+        try:
+            await aclose()
+        except BaseException:
+            # release the remaining iterators as well; should that fail, too, the
+            # later error propagates with this one as its context
+            await close_all(iterators)
+            raise
+
+
 def borrow(iterator: AsyncIterator[T]) -> AsyncGenerator[T, None]:
     """Borrow an async iterator for iteration, preventing it from being closed"""
     return (item async for item in iterator)
